@@ -396,6 +396,13 @@ def deserialize_bytes(stream, **kwargs):
 
     return stream.read(length)
 
+def _hashable(value):
+    # a sequence used as a key or as a member of a set
+    # can only have been a tuple (sequences are decoded as lists)
+    if isinstance(value, list):
+        return tuple(_hashable(v) for v in value)
+    return value
+
 def deserialize_map(stream, **kwargs):
     length = deserialize_value(stream, **kwargs)
 
@@ -409,7 +416,7 @@ def deserialize_map(stream, **kwargs):
     for i in range(length):
         k = deserialize_value(stream, **kwargs)
         v = deserialize_value(stream, **kwargs)
-        obj[k] = v
+        obj[_hashable(k)] = v
 
     return obj
 
@@ -442,7 +449,7 @@ def deserialize_set(stream, **kwargs):
     if length > MAX_ARRAY_LENGTH:
         raise ValueError("set length too large: %d" % length)
 
-    obj = set([deserialize_value(stream, **kwargs) for i in range(length)])
+    obj = set([_hashable(deserialize_value(stream, **kwargs)) for i in range(length)])
 
     return obj
 
